@@ -475,4 +475,23 @@ theorem label_commits_partial (H : Bytes → Bytes) (root : List Bytes → Bytes
   obtain ⟨e1, e2, e3⟩ := label_buffer_any_inj ver wf1 wf2 hb
   exact ⟨e1, e3, state_label_inj_partial H s1 s2 w1 w2 hH hns (hRoot e2)⟩
 
+/-- non-vacuity of `label_commits_partial`: toy hash (injective), a toy 32-byte "root" that separates the two
+one-box states below, 32-byte digests; every hypothesis is met by two DIFFERENT states (boxes "ab" and "ac"). -/
+def toyRoot : List Bytes → Bytes := fun l => ((l.flatten.drop 5) ++ List.replicate 32 0).take 32
+
+example :
+    let s1 := [Entry.kv (boxKey 77 [97, 98]) [99]]
+    let s2 := [Entry.kv (boxKey 77 [97, 99]) [99]]
+    let p : LabelParts := ⟨List.replicate 32 1, [], [0x80], List.replicate 32 3, List.replicate 32 4, List.replicate 32 5⟩
+    (toyRoot (leaves toyH s1)).length = 32 ∧ (toyRoot (leaves toyH s2)).length = 32 ∧
+    (∀ b1 b2 : Bytes, toyH b1 = toyH b2 → b1 = b2) ∧
+    (toyRoot (leaves toyH s1) = toyRoot (leaves toyH s2) → (leaves toyH s1).Perm (leaves toyH s2)) ∧
+    NoCollisionOn toyH (pres s1 ++ pres s2) ∧
+    ({ p with balancesRoot := toyRoot (leaves toyH s1) } : LabelParts).WF := by
+  refine ⟨by decide, by decide, fun b1 b2 h => by simpa [toyH] using h, fun h => absurd h (by decide),
+    toyH_noCollision _, ?_⟩
+  simp [LabelParts.WF, toyRoot]
+
+example : (77 : Nat) < 2 ^ 64 ∧ (18446744073709551615 : Nat) < 2 ^ 64 := by decide
+
 end Props.C15
